@@ -368,19 +368,13 @@ theorem fromDict_inv (cls : String) (cfg : Cfg) (fs : List (FieldDef × Ty)) (d 
   unfold fromDict at h
   simp only [] at h
   split at h
-  · split at h
-    · rename_i vals hd
-      cases h
-      exact Or.inl ⟨vals, hd, rfl⟩
-    · simp [raisePy] at h
-  · split at h
-    · rename_i o kvs
-      split at h
-      · cases h
-      · obtain ⟨vals, hv, h⟩ := bind_ok_inv h
-        simp [pure, Except.pure, buildInst] at h
-        exact Or.inr ⟨o, kvs, vals, rfl, hv, h.symm⟩
+  · rename_i o kvs
+    split at h
     · cases h
+    · obtain ⟨vals, hv, h⟩ := bind_ok_inv h
+      simp [pure, Except.pure, buildInst] at h
+      exact Or.inr ⟨o, kvs, vals, rfl, hv, h.symm⟩
+  · cases h
 
 theorem isNone_eq {v : V} (h : isNone v = true) : v = .none := by
   cases v <;> simp [isNone] at h <;> rfl
